@@ -37,6 +37,16 @@ def scenarios(rng, tier):
             s.frame(0, emit(M, own, descs, seq=rng.randrange(1, 65536)))
         else:
             s.frame(0, emit(M, own, [], seq=rng.randrange(1, 65536), count=0))
+    for k in range(20 if tier == 'quick' else 400):
+        cfg = Cfg(0, mtu=rng.choice([576, 1500, 65536, 70000])); own = cfg.own(); M = mac(1)
+        s.start('txf_%d' % k); s.lines.append(cfg.line()); s.frame(0, discover(M, gen=1)); s.frame(0, discover(M, gen=1, tos=1))
+        n1 = rng.choice([1, 2, 3]); sq = rng.randrange(1, 60000)
+        s.op('failsend', rng.randrange(1, n1 + 2))           # one transmission of this Emit is refused (a Probe or the ACK)
+        s.frame(0, emit(M, own, [(1, 0, mac(7), mac(8))] * n1, seq=sq)); s.op('failsend clear')
+        if rng.random() < 0.5: s.frame(0, qlt(M, own, 14, 0, seq=sq + 2, tos=1))
+        elif rng.random() < 0.5: s.frame(0, query(M, own, seq=sq + 2))
+        s.frame(0, emit(M, own, [(rng.choice([0, 1]), 1, mac(17), mac(18)), (1, 0, mac(19), mac(20))], seq=sq + 2))
+        s.frame(0, emit(M, own, [(0, 2, mac(21), mac(22))], seq=sq + 3))
     return [(s.text(), {})]
 def act_shape(a):
     if a[0] == 'sleep': return ('sleep', a[1])
@@ -53,8 +63,9 @@ def project(blk, name, meta):
         return send_opcodes(blk)
     return ()
 def oracle(name, ib, mb, meta):
-    fails = []; mtu = 1500; own = OWN0; mapper = None
+    fails = []; mtu = 1500; own = OWN0; mapper = None; faulty = False
     for i, b in enumerate(ib):
+        if b.op.startswith('failsend'): faulty = 'clear' not in b.op
         if b.op.startswith('cfg 0'):
             kv = dict(t.split('=', 1) for t in b.op.split()[2:]); mtu = int(kv.get('mtu', mtu)); own = bytes.fromhex(kv.get('mac', own.hex()))
             if kv.get('mtufail') == '1' or mtu == 0: mtu = 1500 if 'c06' != 'c06' else -1   # getter fails: the responder assumes 1500 (an Emit is dropped)
@@ -62,7 +73,7 @@ def oracle(name, ib, mb, meta):
         ctx, fr = frame_of(b); d = dec(fr + bytes(max(0, 36 - len(fr))))
         fill = int(b.op.split()[2], 16)
         if d['tos'] == 0 and d['opc'] == 0 and mapper is None: mapper = (d['rsrc'], d['esrc'])
-        if d['tos'] != 0 or d['opc'] != 2 or mtu < 0: continue
+        if d['tos'] != 0 or d['opc'] != 2 or mtu < 0 or faulty: continue
         cap = (mtu - 34) // 14
         buf = (fr + bytes([fill]) * mtu)[:mtu]
         n = (buf[32] << 8) | buf[33]
